@@ -494,6 +494,28 @@ def spec_glom_history(col, rng):
         col.count('outcomes_equal_to_cold_baseline')
 
 
+def spec_glom_star_toggles(col):
+    """ONE Spec('a.*') object evaluated through Spec.glom() again and again while PATH_STAR is toggled: each evaluation means
+    what glom(target, 'a.*') means under the setting in force"""
+    target = lambda: {'a': {'*': 'literal star key', 'k': 1}}
+    sp = Spec('a.*')
+    old = gcore.PATH_STAR
+    try:
+        with warnings.catch_warnings():
+            warnings.simplefilter('ignore')
+            for i, star in enumerate([True, False, True, True, False, False, True]):
+                gcore.PATH_STAR = star
+                got, want = call(sp.glom, target()), call(glom_pkg.glom, target(), 'a.*')
+                col.case(('spec.glom-star-toggle', i, star), True)
+                col.count('path_star_toggles')
+                if outcome_signature(got) != outcome_signature(want):
+                    col.violation('C06/spec-glom-keeps-the-meaning-of-an-earlier-PATH_STAR', "evaluation #%d of one Spec('a.*') via .glom() with "
+                                  "PATH_STAR=%s: %r ; glom(target, 'a.*') gives %r" % (i + 1, star, got, want), None)
+                    return
+    finally:
+        gcore.PATH_STAR = old
+
+
 def related_registration_history(col, rng):
     """registering a BASE of a type that was already looked up: the next call must behave as if the registration had
     been made first (compared with a cold registry that never saw the earlier calls)"""
@@ -539,6 +561,7 @@ def run(ctx):
     saved_star = gcore.PATH_STAR
     try:
         spec_glom_history(col, rng)
+        spec_glom_star_toggles(col)
         related_registration_history(col, rng)
         for h in range(ctx.n(3, 4)):
             history(col, rng, P, baselines, ctx.n(500, 3000), contract)
